@@ -23,7 +23,7 @@ RULE = ("histories of 8-16 steps: derive(child of random existing config, random
         "value) | run(random seeded config); root is main.emulator(1) of `h(q); result(measure(q))`; "
         "distinct = distinct (method sequence, parent indices) histories; non-trivial = some config is "
         "run again after another config was derived from it or from a sibling")
-FLOORS = {"runs": 60, "reruns_compared": 20, "derivations": 60}
+FLOORS = {"builder_derivations": 50, "deferred_state_reads": 3, "runs": 60, "reruns_compared": 20, "derivations": 60}
 
 PROG = '''from guppylang import guppy
 from guppylang.std.builtins import result
@@ -51,6 +51,107 @@ def snapshot(em):
 def run_bits(em):
     res = em.run()
     return tuple(int(v) for shot in res.results for _, v in shot.entries)
+
+
+STATE_PROG = '''from guppylang import guppy
+from guppylang.std.builtins import result
+from guppylang.std.quantum import qubit, h, measure
+from guppylang.std.debug import state_result
+
+@guppy
+def main() -> None:
+    q = qubit()
+    h(q)
+    b = measure(q)
+    r = qubit()
+    if b:
+        h(r)
+    state_result("s", r)
+    result("c", b)
+    result("d", measure(r))
+'''
+
+
+def builder_history(rng, counters):
+    """EmulatorBuilder derivations: every builder keeps the options it was created with, whatever is
+    derived from it (or from a sibling) afterwards."""
+    import copy
+    from dataclasses import fields
+    from pathlib import Path
+
+    from guppylang.emulator import EmulatorBuilder
+
+    def snap(b):
+        return {f.name: copy.deepcopy(getattr(b, f.name)) for f in fields(b)}
+
+    builders = [EmulatorBuilder()]
+    snaps = [snap(builders[0])]
+    hist = []
+    viols = []
+    for _ in range(rng.randint(5, 12)):
+        p = rng.randrange(len(builders))
+        m = rng.choice(["with_name", "with_build_dir", "with_verbose", "with_build_arg", "with_build_arg",
+                        "with_build_arg"])
+        args = {"with_name": [rng.choice(["a", "b", None])], "with_build_dir": [rng.choice([Path("/nonexistent/x"), None])],
+                "with_verbose": [rng.random() < 0.5],
+                "with_build_arg": [rng.choice(["platform", "strict_names", "opt", "k"]), rng.choice(["helios", 1, True, "x"])]}[m]
+        builders.append(getattr(builders[p], m)(*args))
+        snaps.append(snap(builders[-1]))
+        hist.append((m, p, repr(args)))
+        counters["builder_derivations"] = counters.get("builder_derivations", 0) + 1
+        for j, b in enumerate(builders):
+            if snap(b) != snaps[j]:
+                viols.append({"mech": "C28:earlier-builder-changed",
+                              "witness": {"builder": j, "at_creation": repr(snaps[j]), "now": repr(snap(b)),
+                                          "history": hist[:]}})
+                snaps[j] = snap(b)
+    return viols
+
+
+def deferred_states(ctx, rng, counters):
+    """Results are values: the states recorded by an earlier run of a seeded configuration must be the
+    same whether they are read right away or after other configurations sharing the build were run."""
+    import shutil
+    import tempfile
+    from pathlib import Path
+
+    import numpy as np
+
+    from guppylang.emulator import EmulatorInstance
+
+    from vf.compat import execsub, lower
+
+    ld = ctx.load(STATE_PROG, "stateprog")
+    low = lower.lower_package(ld.main.compile())
+    bdir = Path(tempfile.mkdtemp(prefix="sel", dir=ctx.tmp))
+    viols = []
+    try:
+        inst = execsub.build_instance(low, build_dir=bdir)
+        root = EmulatorInstance(_instance=inst, _n_qubits=2).with_shots(6).statevector_sim()
+        a = root.with_seed(rng.randint(1, 50))
+        b = root.with_seed(rng.randint(51, 99))
+
+        def states(res):
+            out = []
+            for shot in res.partial_states():
+                for tag, pv in shot:
+                    out.append((tag, tuple(np.round(np.asarray(pv.as_single_state()), 6))))
+            return out
+
+        ref = states(a.run())              # read immediately
+        res_a = a.run()                    # same configuration again, states read later
+        bits_a = [tuple(s.entries) for s in res_a.results]
+        for _ in range(rng.randint(1, 3)):
+            rng.choice([a, b, b]).run()
+        late = states(res_a)
+        counters["deferred_state_reads"] = counters.get("deferred_state_reads", 0) + 1
+        if late != ref:
+            viols.append({"mech": "C28:recorded-states-changed-by-later-runs",
+                          "witness": {"read_immediately": repr(ref)[:600], "read_after_other_runs": repr(late)[:600],
+                                      "classical_results": repr(bits_a)[:300]}})
+    finally:
+        shutil.rmtree(bdir, ignore_errors=True)
+    return viols
 
 
 def run_case(ctx, rng, idx, params, tier):
@@ -147,6 +248,9 @@ def run_case(ctx, rng, idx, params, tier):
     import shutil
 
     shutil.rmtree(bdir, ignore_errors=True)
+    viols += builder_history(rng, counters)
+    if idx % 4 == 0:
+        viols += deferred_states(ctx, rng, counters)
     seen = set()
     uniq = [v for v in viols if not (v["mech"] in seen or seen.add(v["mech"]))]
     rec = {"status": "violated" if uniq else "held",
